@@ -10,16 +10,89 @@ once with error propagation disabled. TLC applies every payload of every trace a
 """
 from __future__ import annotations
 
-from . import common, inctraces
+import json
+import random
+
+from . import common, inctraces, plan
 from .c05 import validate_traces
-from .common import Evidence, Verdicts, pmap, seed
+from .common import Evidence, Verdicts, pmap, seed, run_tlc
 
 PROP = "C04"
+
+
+def _plan_chunk(jobs):
+    out = []
+    for kind, payload, early in jobs:
+        doc = payload if kind == "doc" else plan.gen_doc(random.Random(payload))
+        if doc is None:
+            continue
+        try:
+            rec = plan.observe(doc, early)
+        except Exception as e:  # noqa: BLE001
+            out.append({"_error": f"{type(e).__name__}: {str(e)[:200]}", "_text": plan.render(doc), "_early": early})
+            continue
+        rec["_early"], rec["_source"] = early, kind
+        out.append(rec)
+    return out
+
+
+def plan_binding(tier, rd, ev, vd):
+    """Plan.tla: M (invariants on every document up to MaxNodes), G (TLC's documents executed on the real executor),
+    V (seeded larger documents), all judged by PlanV.tla."""
+    big, small = (5, 4) if tier == "quick" else (6, 5)
+    cfg = "INIT Init\nNEXT Next\nCONSTANT MaxNodes = %d\nCONSTANT Emit = %s\nINVARIANT InvPartition\nINVARIANT InvAntichain\nINVARIANT InvClosed\nINVARIANT InvNested\nINVARIANT InvEmit\nCHECK_DEADLOCK FALSE\n"
+    r = run_tlc(rd, "MCPlan", cfg % (big, "FALSE"), name="MCPlanM", timeout=3000, heap="16g")
+    ev.add_tlc(f"M: Plan.tla - Partition, Antichain (WellFormedWork), Closed, Nested on every document with <= {big} nodes", r)
+    r = run_tlc(rd, "MCPlan", cfg % (small, "TRUE"), name="MCPlanG", timeout=3000, heap="16g")
+    ev.add_tlc(f"G: every complete document with <= {small} nodes, emitted for the replay", r)
+    docs = [json.loads(o) if isinstance(o, str) else o for o in r.json_lines()]
+    jobs = [("doc", d["doc"], e) for d in docs for e in (False, True)]
+    n = 1500 if tier == "quick" else 20000
+    base = seed() * 1000000 + 400000
+    jobs += [("seed", base + k, k % 2 == 1) for k in range(n)]
+    jobs += [("doc", d, e) for d in plan.shaped_docs() for e in (False, True)]
+    recs = []
+    for lst in pmap(_plan_chunk, jobs, chunk=100):
+        recs += lst
+    for e in [x for x in recs if "_error" in x][:5]:
+        vd.violation("plan-domain-request-raises", {"query": e["_text"], "early": e["_early"]}, e["_error"])
+    recs = [x for x in recs if "_error" not in x]
+    for x in recs:
+        if not x["_clean_ok"]:
+            vd.violation("assembled-differs-from-reference", {"query": x["_text"], "early": x["_early"], "domain": "plan"}, None)
+    hits = {}
+    for bi in range(0, len(recs), 4000):
+        batch = recs[bi:bi + 4000]
+        p = common.write_cases(rd, f"plan{bi}.json", [{k: v for k, v in x.items() if not k.startswith("_")} for x in batch])
+        r = run_tlc(rd, "PlanV", common.v_cfg(), name=f"PlanV{bi}", env={"CASES": str(p)}, timeout=3000, heap="16g")
+        ev.add_tlc(f"V: {len(batch)} recorded plans / failure runs vs Plan.tla (PlanOf, LossExplained)", r)
+        for o in r.json_lines():
+            x = batch[o["viol"] - 1]
+            hits[o["clause"]] = hits.get(o["clause"], 0) + 1
+            case = {"query": x["_text"], "early": x["_early"], "failed": x["failed"], "lost": x["lost"]}
+            if o["clause"].startswith("drift"):
+                vd.note_drift("Plan.tla: " + o["clause"], case)
+            else:
+                # signature: is every lost leaf held by an execution group of >= 2 delivery groups, one of them failed and
+                # every surviving one nested (announced only when its parent completes)?
+                failed = set(x["failed"])
+                dus = {(tuple(e["path"]), e["key"]): e["dus"] for e in x["execs"]}
+                def f37(l):
+                    d = dus.get((tuple(l["path"]), l["key"]), [])
+                    alive = [c for c in d if not failed & set(c)]
+                    return len(d) >= 2 and len(alive) < len(d) and bool(alive) and all(len(c) >= 2 for c in alive)
+                vd.violation(o["clause"], case, None, {"clause": o["clause"], "shared_with_failed_and_nested": all(f37(l) for l in x["lost"])})
+    ev.traces += len(recs)
+    for x in recs:
+        ev.case(None, nontrivial=len(x["tasks"]) >= 2, key=x["_text"] + str(x["_early"]))
+    ev.extra.update({"plan_documents_from_tlc": len(docs), "plan_records": len(recs), "plan_failure_runs": sum(1 for x in recs if x["failed"]),
+                     "plan_records_with_lost_leaves": sum(1 for x in recs if x["lost"]), "plan_clause_hits": hits})
 
 
 def run(tier: str, rd):
     ev = Evidence(PROP, tier)
     vd = Verdicts(PROP)
+    plan_binding(tier, rd, ev, vd)
     recs, info = inctraces.collect(tier, seed() + 17, pmap)
     for e in [r for r in recs if "_error" in r][:3]:
         vd.note_drift("reference execution raised: " + e["_error"], e["_meta"])
